@@ -1916,8 +1916,12 @@ fn exec_rix(read_all: bool, packs: &str, files: &str, dry_first: bool) -> String
             return errkind(&e);
         }
     }
-    // theorem `dry_run_reads_same_headers`
-    if dry_reads.is_some_and(|d| d != take_pack_reads(&h).iter().map(|r| r.id).collect::<BTreeSet<Id>>()) {
+    // theorem `dry_run_reads_same_headers` — for a fixed order of the index files; the code streams them in no fixed order, and for a
+    // pack listed in two files (`a~|-/a|-`) it depends on the order whether its header is read: compared only without such packs
+    let mut labels: Vec<&str> = files.split(['/', '|', ',']).map(|e| e.trim_end_matches('~')).filter(|e| *e != "-" && !e.starts_with('?')).collect();
+    labels.sort_unstable();
+    let listed_twice = labels.windows(2).any(|w| w[0] == w[1]);
+    if !listed_twice && dry_reads.is_some_and(|d| d != take_pack_reads(&h).iter().map(|r| r.id).collect::<BTreeSet<Id>>()) {
         return "differs:dry-run-read-other-pack-headers".into();
     }
     match observe(&h) {
